@@ -480,9 +480,11 @@ enum Res {
 }
 
 fn judge_history(emu: &mut Emu, ops: &[Op], quirk_open: bool) -> Res {
-    let obs = match execute(emu, ops) {
-        Ok(o) => o,
-        Err(m) => return Res::Fail(m),
+    // a port that panics on a write, a read or a pin change does not behave as latch + direction + pins either
+    let obs = match crate::engine::emu::guarded(|| execute(emu, ops)) {
+        Ok(Ok(o)) => o,
+        Ok(Err(m)) => return Res::Fail(m),
+        Err(p) => return Res::Fail(format!("panic: {}", p)),
     };
     match check_pure(ops, &obs) {
         Ok(()) => Res::Pass,
